@@ -288,6 +288,10 @@ var c03CookieVariants = []c03CV{
 	{Name: "other-renamed", NeedsOther: true, PerReqOnly: true, CodeOfY: true}, // y's value under x's name
 	{Name: "own-renamed", NeedsOther: true, PerReqOnly: true},                  // x's value under y's name
 	{Name: "tamper-value"},
+	// a knowledgeable alteration: only the last byte of the ciphertext changes (AES-CFB: only the last
+	// byte of the plaintext, the decoded structure stays well-formed); name, timestamp and signature are
+	// the genuine ones. Sent after the genuine cookie has been presented in the same process.
+	{Name: "tamper-value-tail"},
 	{Name: "tamper-ts"},
 	{Name: "tamper-sig"},
 	{Name: "sig-stripped"},
@@ -639,6 +643,21 @@ func c03TamperPart(v string, part int) string {
 	return strings.Join(ps, "|")
 }
 
+// c03TamperTail flips the lowest bit of the last byte the value part encodes.
+func c03TamperTail(v string) string {
+	ps := strings.Split(v, "|")
+	for _, enc := range []*base64.Encoding{base64.URLEncoding, base64.RawURLEncoding, base64.StdEncoding, base64.RawStdEncoding} {
+		raw, err := enc.DecodeString(ps[0])
+		if err != nil || len(raw) == 0 {
+			continue
+		}
+		raw[len(raw)-1] ^= 1
+		ps[0] = enc.EncodeToString(raw)
+		return strings.Join(ps, "|")
+	}
+	return c03TamperPart(v, 0)
+}
+
 // craft builds the hand-made Cookie header of a variant.
 func (w *c03World) craft(op c03Op, x *c03Login) (hdr string, note string, err error) {
 	var y *c03Login
@@ -659,6 +678,8 @@ func (w *c03World) craft(op c03Op, x *c03Login) (hdr string, note string, err er
 		return c03Header([]c03Pair{{y.CookieName, x.CookieValue}}), "", nil
 	case "tamper-value":
 		return c03Header([]c03Pair{{x.CookieName, c03TamperPart(x.CookieValue, 0)}}), "", nil
+	case "tamper-value-tail":
+		return c03Header([]c03Pair{{x.CookieName, c03TamperTail(x.CookieValue)}}), "", nil
 	case "tamper-ts":
 		return c03Header([]c03Pair{{x.CookieName, c03TamperPart(x.CookieValue, 1)}}), "", nil
 	case "tamper-sig":
@@ -1100,7 +1121,12 @@ func c03Search(c *Ctx, cfg c03Cfg, bd c03Bound, sub, subs int) {
 		if !try(h) {
 			h = alt
 			if !try(h) {
-				c.Error("NONDETERMINISM: %s: %s [%d operations in the shared world] => %v gave %q but does not reproduce on a fresh world", cfgKey, c03HistString(hist), len(alt), op, key)
+				// observed in the shared world (real requests, real answers) but neither the history alone nor
+				// the history plus the shared world's earlier requests reproduce it on a fresh proxy: the
+				// answer depends on state that outlives a proxy instance. Reported, marked as such.
+				c.Unstable("%s: %s [%d operations in the shared world] => %v gave %q but does not reproduce on a fresh world", cfgKey, c03HistString(hist), len(alt), op, key)
+				c.Inc("unreproducible_violations")
+				c.Violate(key, "[observed once in a world shared with earlier requests, not reproducible on a fresh proxy] "+msg, 1<<29, c03Case{Cfg: cfg, Hist: alt, Op: op, Obs: obs, Text: c03HistString(alt)})
 				return true
 			}
 		}
@@ -1349,6 +1375,7 @@ func init() {
 		run: func(c *Ctx) {
 			// every execution builds a proxy (flag parsing, validation, templates): mostly garbage
 			debug.SetGCPercent(400)
+			c03Concurrent(c)
 			cfgs := c03Configs(c.Quick())
 			bd := c03Bounds(c.Quick())
 			c.Info["configurations"] = len(cfgs)
@@ -1417,6 +1444,10 @@ func init() {
 			}
 		},
 		replay: func(c *Ctx, raw json.RawMessage) string {
+			var cr0 c03ConcReplay
+			if json.Unmarshal(raw, &cr0) == nil && cr0.Kind == "concurrent-callbacks" {
+				return c03ConcReplayOne(c, cr0)
+			}
 			var cs c03Case
 			if err := json.Unmarshal(raw, &cs); err != nil {
 				return err.Error()
